@@ -5,6 +5,7 @@ pub mod adapter;
 pub mod common;
 pub mod data_gen;
 pub mod ir_sexp;
+pub mod operand_matrix;
 pub mod query_gen;
 pub mod recurse_subtype;
 pub mod run;
